@@ -41,9 +41,14 @@ let split_on c s = String.split_on_char c s
 let sha = sha256
 
 (* ---------- scripts: d1:e1,d2:e2,...  ("-" = empty script) ---------- *)
-let ioerr_of_string = function
+(* error kinds: - eof ueof x<n> (an arbitrary error value) t<n> (an error reporting itself temporary);
+   an optional @<ms> suffix (the source blocks before answering) does not exist for the model *)
+let ioerr_of_string s0 =
+  let s = (match String.index_opt s0 '@' with Some k -> String.sub s0 0 k | None -> s0) in
+  match s with
   | "-" -> None | "eof" -> Some IoEOF | "ueof" -> Some IoUnexpectedEOF
-  | s -> Some (IoOther (n_of_int (int_of_string (String.sub s 1 (String.length s - 1)))))
+  | s -> let n = int_of_string (String.sub s 1 (String.length s - 1)) in
+         Some (IoOther (n_of_int (if s.[0] = 't' then 1000 + n else n)))
 let script_of_string s =
   if s = "-" then [] else
   List.map (fun item -> match split_on ':' item with
@@ -52,7 +57,8 @@ let script_of_string s =
 let script_bytes sc = List.fold_left (fun a (d, _) -> a + List.length d) 0 sc
 
 (* ---------- printing ---------- *)
-let ioerr_str = function IoEOF -> "eof" | IoUnexpectedEOF -> "ueof" | IoOther n -> "x" ^ string_of_int (int_of_n n)
+let ioerr_str = function IoEOF -> "eof" | IoUnexpectedEOF -> "ueof"
+  | IoOther n -> let k = int_of_n n in if k >= 1000 then "t" ^ string_of_int (k - 1000) else "x" ^ string_of_int k
 let err_class = function
   | ErrWordLen -> "wordlen" | ErrEntropyLen -> "entropylen" | ErrChecksumIncorrect -> "checksum"
   | ErrUnknownWord (tok, pos) -> Printf.sprintf "unknown %d %s" (int_of_nat pos) (hex_of_bytes tok)
